@@ -77,6 +77,7 @@ def parseOp (w : World) (ws : List String) : Option Op :=
 
 def stepLine (C : Cfg) (w : World) (ws : List String) : World × String :=
   match ws with
+  | "alloc" :: _ => (w, "cfg")     -- allocator instances are not modelled (one heap)
   | ["end"] =>
     -- end of history: everything must have been returned
     (w, s!"end blocks={w.heap.blocks.length} objs={w.objs.length}")
